@@ -52,6 +52,18 @@ ObsGamma == IF R.observed = 0 THEN R.gamma = 10000                           \* 
             ELSE Abs(OneMinusGamma * (R.expected \div 10) - R.observed * 1000) <= 1000 + Abs(OneMinusGamma) + R.expected \div 10
 ObsLeOne == R.gamma <= 10000
 ObsIdentical == R.identical = 1 => R.gamma = 10000 /\ R.observed = 0
+\* approx_gamma_range = (1 - observed / (expected (1 - p)), 1 - observed / (expected (1 + p))); refused without a precision level
+\* (1 - bound) * expected * (pb -+ pa) = observed * pb, as big naturals, 2e-3 relative (fixed-point inputs)
+Prod3(a, b, c) == Mul(FromInt(a), Mul(FromInt(b), FromInt(c)))
+NearBig(x, y) == /\ Geq(Add(Mul(y, FromInt(1002)), FromInt(2000000)), Mul(x, FromInt(1000)))
+                 /\ Geq(Add(Mul(x, FromInt(1002)), FromInt(2000000)), Mul(y, FromInt(1000)))
+ObsRange ==
+    IF R.hasprec = 0 THEN R.rexc = "ValueError"
+    ELSE (R.rexc = "" /\ R.expected > 0 /\ R.rlo <= 10000 /\ R.rhi <= 10000 /\ R.pb > R.pa) =>
+            /\ NearBig(Prod3(10000 - R.rlo, R.expected, R.pb - R.pa), Prod3(R.observed, 10000, R.pb))
+            /\ NearBig(Prod3(10000 - R.rhi, R.expected, R.pb + R.pa), Prod3(R.observed, 10000, R.pb))
+            /\ R.rlo <= R.gamma + 1 /\ R.gamma <= R.rhi + 1             \* gamma lies inside its own range
+
 DrawInMainThread == \A k \in 1..Len(R.draws) : R.draws[k].thread = 0
 DrawBeforeSubmit == /\ Len(R.submits) = Len(R.draws) + 1
                     /\ R.submits[1].sid = 0
@@ -78,6 +90,7 @@ Verdicts ==
     /\ Judge("ObsGamma", ObsGamma)
     /\ Judge("ObsLeOne", ObsLeOne)
     /\ Judge("ObsIdentical", ObsIdentical)
+    /\ Judge("ObsRange", ObsRange)
     /\ Judge("DrawInMainThread", DrawInMainThread)
     /\ Judge("DrawBeforeSubmit", DrawBeforeSubmit)
     /\ Judge("ObsSameAsFirst", ObsSameAsFirst)
